@@ -1,4 +1,6 @@
 //! pdu_replay <harness-name> <hex>      re-run a harness's check function on concrete input octets
+//! pdu_replay search <harness-name> [n]  look for a failing input natively (corner patterns, then n
+//!                                      pseudo-random inputs); prints `FOUND <hex> <outcome>` / `NONE`
 //! pdu_replay list                      print "name K" for every harness
 //! pdu_replay selftest-utf8             cross-check the UTF-8 validation stub against std
 //!
@@ -90,6 +92,79 @@ fn selftest_utf8() -> i32 {
     }
 }
 
+fn hex(v: &[u8]) -> String {
+    v.iter().map(|b| format!("{:02x}", b)).collect()
+}
+
+/// One guarded execution: Some(description) if the check misbehaves on `inp`.
+fn misbehaves(name: &str, inp: &[u8]) -> Option<String> {
+    let n = name.to_string();
+    let i = inp.to_vec();
+    match std::panic::catch_unwind(move || dispatch::run(&n, &i)) {
+        Err(_) => Some(format!("PANIC: {}", LAST_PANIC.lock().unwrap())),
+        Ok(Some(Outcome::Mismatch(m))) => Some(format!("MISMATCH: {}", m)),
+        _ => None,
+    }
+}
+
+fn search(name: &str, n: u64) -> i32 {
+    let k = match dispatch::HARNESSES.iter().find(|(h, _)| *h == name) {
+        Some((_, k)) => *k,
+        None => {
+            eprintln!("unknown harness {}", name);
+            return 2;
+        }
+    };
+    install_hook();
+    let mut cands: Vec<Vec<u8>> = vec![vec![0u8; k], vec![0xffu8; k], vec![0x01u8; k], vec![0x7fu8; k], vec![0x80u8; k]];
+    for pos in 0..k.min(6) {
+        for val in 0..=255u8 {
+            let mut v = vec![0u8; k];
+            v[pos] = val;
+            cands.push(v.clone());
+            let mut v = vec![0xffu8; k];
+            v[pos] = val;
+            cands.push(v);
+        }
+    }
+    let mut x: u64 = 0x2545F4914F6CDD1D;
+    for _ in 0..n {
+        let mut v = vec![0u8; k];
+        for b in v.iter_mut() {
+            x ^= x << 13;
+            x ^= x >> 7;
+            x ^= x << 17;
+            *b = (x >> 24) as u8;
+        }
+        cands.push(v);
+    }
+    for c in cands {
+        if let Some(d) = misbehaves(name, &c) {
+            println!("FOUND {} {}", hex(&c), d);
+            return 0;
+        }
+    }
+    println!("NONE");
+    0
+}
+
+fn install_hook() {
+    std::panic::set_hook(Box::new(|info| {
+        let loc = info
+            .location()
+            .map(|l| format!("{}:{}", l.file(), l.line()))
+            .unwrap_or_default();
+        let msg = if let Some(s) = info.payload().downcast_ref::<&str>() {
+            s.to_string()
+        } else if let Some(s) = info.payload().downcast_ref::<String>() {
+            s.clone()
+        } else {
+            "<non-string panic payload>".to_string()
+        };
+        *LAST_PANIC.lock().unwrap() = format!("{} at {}", msg, loc);
+    }));
+}
+
 fn main() {
     let args: Vec<String> = std::env::args().collect();
     if args.len() == 2 && args[1] == "list" {
@@ -101,8 +176,11 @@ fn main() {
     if args.len() == 2 && args[1] == "selftest-utf8" {
         std::process::exit(selftest_utf8());
     }
+    if args.len() >= 3 && args[1] == "search" {
+        std::process::exit(search(&args[2], args.get(3).and_then(|s| s.parse().ok()).unwrap_or(20000)));
+    }
     if args.len() != 3 {
-        eprintln!("usage: pdu_replay <harness-name> <hex> | list | selftest-utf8");
+        eprintln!("usage: pdu_replay <harness-name> <hex> | search <harness-name> [n] | list | selftest-utf8");
         std::process::exit(2);
     }
     let name = args[1].clone();
@@ -123,20 +201,7 @@ fn main() {
     if input.len() < k {
         input.resize(k, 0);
     }
-    std::panic::set_hook(Box::new(|info| {
-        let loc = info
-            .location()
-            .map(|l| format!("{}:{}", l.file(), l.line()))
-            .unwrap_or_default();
-        let msg = if let Some(s) = info.payload().downcast_ref::<&str>() {
-            s.to_string()
-        } else if let Some(s) = info.payload().downcast_ref::<String>() {
-            s.clone()
-        } else {
-            "<non-string panic payload>".to_string()
-        };
-        *LAST_PANIC.lock().unwrap() = format!("{} at {}", msg, loc);
-    }));
+    install_hook();
     let inp = input.clone();
     let r = std::panic::catch_unwind(move || dispatch::run(&name, &inp));
     match r {
